@@ -22,6 +22,7 @@ def run(tier):
         ck.violation({"where": "model", "config": "JlsLinks_mc", "invariant": r.violated})
     P = crashcheck.crash_programs(rng, 120 if thorough else 30, thorough, "c19", ck=ck)
     trace, v, nobs = crashcheck.run_crash(ck, P, "c19", {"C19"})
+    crashcheck.repair_conformance(ck, trace, "C19")
     ck.cov["distinct_nontrivial"] = sum(1 for l in open(trace) if l.startswith('{"e":"CrashObs"') and '"rc":0' in l)
     ck.cov["closed_files_read"] = sum(1 for l in open(trace) if l.startswith('{"e":"Unchanged"'))
     ck.cov["rule"] = "one case per crash image that opened (then reopened twice) and per closed file read; non-trivial = images that opened"
